@@ -57,8 +57,10 @@ Proof. exact quote_scan_rewrites. Qed.
    the nesting limit; every chain, every fuel, every parser built from the shipped plugins; and the fragment-joining
    core rule commutes with the shift.  (An implication, not an equation: a marker length taken off a recorded offset
    can underflow on the original offsets and not on the larger shifted ones.)
-   NOT proved: the comparison with D parsed at level 0 (level 1 vs 0 only matters at the nesting limit), the HTML
-   wrapper, the list-item half, and the composition of these pieces into one statement about `parse`. *)
+   The serializer ignores recorded positions, so the shifted block tree yields the same HTML after inline pass and
+   clean-up (C06_shifted_tree_same_html).
+   NOT proved: the comparison with D parsed at level 0 (level 1 vs 0 only matters at the nesting limit), the
+   list-item half, and the composition of these pieces into one statement about `parse`. *)
 Theorem C06_block_tokenizer_shift_invariant : forall P, atf P = true -> forall cfg fuel st, sinv st ->
   btokenize fuel cfg (sh P st) = fmap (sh P) (btokenize fuel cfg st).
 Proof. exact btokenize_sh. Qed.
@@ -94,6 +96,17 @@ Theorem C06_shipped_inline_pass_shift : forall P cfg nest ic tp ts fuel refs n n
   fj_walk (sh_node P n') = sh_node P (fj_walk n').
 Proof. exact shipped_inline_pass_shift. Qed.
 
+Theorem C06_render_ignores_positions : forall P x n, render x (sh_node P n) = render x n.
+Proof. exact render_sh. Qed.
+
+(* inline pass + clean-up + serializer: the shifted block tree yields the same HTML (every shipped parser) *)
+Theorem C06_shifted_tree_same_html : forall P cfg nest ic tp ts fuel refs x n n',
+  let icf := ICfg ic (md_maxnest (build_md cfg nest)) tp ts
+                  (map (fun p : N * (bool * list (option kind)) => (fst p, snd (snd p))) (md_pairs (build_md cfg nest))) in
+  inline_walk fuel icf refs n = inr n' ->
+  exists n2, inline_walk fuel icf refs (sh_node P n) = inr n2 /\ render x (fj_walk n2) = render x (fj_walk n').
+Proof. exact shifted_tree_same_html. Qed.
+
 (* non-vacuity: the default parser's inline pass on a paragraph with emphasis, a code span and a link returns, and the
    shifted run returns the shifted tree *)
 Example C06_inline_shift_nonvacuous :
@@ -125,3 +138,5 @@ Print Assumptions C06_inline_pass_shift_invariant.
 Print Assumptions C06_inline_parse_shift_invariant.
 Print Assumptions C06_fragments_join_shift_invariant.
 Print Assumptions C06_shipped_inline_pass_shift.
+Print Assumptions C06_render_ignores_positions.
+Print Assumptions C06_shifted_tree_same_html.
